@@ -28,7 +28,7 @@ PROPS = {
                     "statement keeps its semicolon token and trailing trivia (pair pushed as returned), in the same position.",
         not_decided=["in-range statements come out as in whole-file formatting (relates two runs)", "stmt_block::format_stmt_block touches only nested blocks (assumed, class C)"],
         assumptions=[]),
-    "C03": dict(units=["tok", "args", "stmt", "table", "expr"], bounded=[dict(kind="lib", witnesses="C03_BOUNDED"), dict(kind="corpus", kinds=["comments"]), dict(kind="inject", kinds=["comments"])],
+    "C03": dict(units=["tok", "args", "stmt", "table", "expr", "collapse"], bounded=[dict(kind="lib", witnesses="C03_BOUNDED"), dict(kind="corpus", kinds=["comments"]), dict(kind="inject", kinds=["comments"])],
         explanation="token/trivia layer, all real text: format_token keeps a comment's kind, long-bracket level and text (line comments right-trimmed, block comments newline-normalised) and "
                     "creates only whitespace; load_token_trivia (real loop over a Peekable with an inner next(), inductive invariant): the comments of the input trivia come out in order, each only "
                     "rewritten as format_token allows, input whitespace is never copied, and in leading trivia every line comment is followed by a newline; format_token_reference / format_symbol / "
@@ -36,6 +36,7 @@ PROPS = {
                     "format_function_args keeps parentheses that carry comments. remove_condition_parentheses appends every comment of the removed parentheses to the condition; "
                     "take_singleline_trailing_comments / format_field_expression_value hand on the comments of the formatted field value. "
                     "hang_binop (real text, the three fetches and the two appends): the comments in front of the hung operator are its own leading and trailing ones and those in front of the right operand. "
+                    "is_if_guard / should_collapse_function_body (real text): a body is only collapsed — its statement's trivia replaced — when contains_comments finds no comment in it (and none behind `)` / in front of `end`). "
                     "Bounded (labelled): comment-census witnesses per transplant site and the corpus sweep.",
         not_decided=[
                      "comment transplant sites built from iterator-adapter chains (parenthesis removal, semicolon removal, hang_binop, punctuated lists, table fields): holes; "
@@ -105,7 +106,7 @@ PROPS = {
                      "byte-identical output across carriers is implied only through `same Config`; equality of the library's output for equal Configs is determinism of format_code, not proved"],
         assumptions=["ec4rs Properties::get::<T>() returns the parsed value of key T (wrappers); the string parsers generated by property_choice! are macro output (assumed)"],
         technique="Kani complete enumeration of finite enum domains + Verus contracts on mechanically extracted real functions"),
-    "C07": dict(bounded=[dict(kind="lib", witnesses="C07_BOUNDED"), dict(kind="corpus", kinds=["panic", "error", "timeout"]), dict(kind="inject", kinds=["panic", "error"])], units=["expr", "block", "ctx", "lib", "tok", "cli_io", "diff", "config", "econf", "sort", "args", "table", "stmt", "luau"], kani=["shape"],
+    "C07": dict(bounded=[dict(kind="lib", witnesses="C07_BOUNDED"), dict(kind="corpus", kinds=["panic", "error", "timeout"]), dict(kind="inject", kinds=["panic", "error"])], units=["expr", "block", "ctx", "lib", "tok", "cli_io", "diff", "config", "econf", "sort", "args", "table", "stmt", "luau", "collapse"], kani=["shape"],
         explanation="Totality of the library call, decided per function under contract: inside every function whose real text is verified, each panic!/unreachable!/assert!/expect/unwrap, "
                     "each usize subtraction/addition/multiplication and every recursion or loop (decreases) is an obligation Verus discharges for all inputs (one `.total` obligation per function and "
                     "feature set). format_code returns Err(ParseError) iff the input does not parse and never Ok otherwise; format_ast without verification always returns Ok. "
@@ -124,13 +125,15 @@ PROPS = {
                      "slice::sort_by_key is assumed to be a stable sort by the name (class B wrapper); the leading-trivia swap (comments of the group's first line stay on top) is a hole: comment preservation inside a sorted group is only exercised by the bounded witnesses",
                      "get_expression_kind (what counts as a require / GetService call): string matching, assumed"],
         assumptions=["parsed ASTs carry positions; local names are identifier tokens (parser)"]),
-    "C02": dict(units=["expr", "block", "lib", "tok", "args", "table", "stmt", "luau"], bounded=[dict(kind="lib", witnesses="C02_BOUNDED"), dict(kind="corpus", kinds=["tree", "literals"]), dict(kind="inject", kinds=["tree", "literals"])],
+    "C02": dict(units=["expr", "block", "lib", "tok", "args", "table", "stmt", "luau", "collapse"], bounded=[dict(kind="lib", witnesses="C02_BOUNDED"), dict(kind="corpus", kinds=["tree", "literals"]), dict(kind="inject", kinds=["tree", "literals"])],
         explanation="expression spine: same obligations as C05 (operator tree, leaves, operators) plus line safety (code printed behind a line comment silently disappears: D25, D32, D33); "
                     "statements of a block are the input's, in order (format_block invariant); token layer: names/symbols/numbers/strings per fmt_tt; call sugar keeps the single argument (args_sem); "
                     "table fields keep kind, key and value trees (format_field, format_field_expression_value); a condition loses at most its top-level parentheses; "
                     "Luau: keep_parentheses keeps the parentheses of a single type wherever the grammar reads the type differently without them (parens_needed, written from the Luau grammar). "
+                    "collapse_simple_statement (unit collapse, real text): is_block_simple / is_if_guard / should_collapse_function_body say yes only for a body of exactly one statement of a kind the one-line path prints "
+                    "(no elseif / else), and format_if — collapsed or not — returns an `if` with the same number of statements in every block and the same branches. "
                     "Bounded (labelled): Luau type witnesses, collapse witnesses, call-behind-comment witnesses, corpus sweep (tree and literal values).",
-        not_decided=["statement formatters other than format_block / format_stmt dispatch (if, while, for, function, assignment bodies): assumed to rebuild the same node kind (class C stubs)",
+        not_decided=["statement formatters other than format_block / format_stmt dispatch / format_if (while, for, function, assignment bodies; format_else_if; the one-line branch of format_function_body): assumed to rebuild the same node kind (class C stubs)",
                      "the context flags handed to keep_parentheses (format_type_info_internal) are not under contract"],
         assumptions=["leaf formatters return the same leaf (var_id, call_id, table_id, ... postconditions on stubs)"]),
     "C01": dict(units=["expr", "block", "lib", "tok", "table"], bounded=[dict(kind="lib", witnesses="C01_BOUNDED"), dict(kind="corpus", kinds=["parse"]), dict(kind="inject", kinds=["parse"])],
@@ -327,7 +330,8 @@ OPEN_C03_FINDINGS = [w('local a = { c -- k\n = bar() }\n', oracle="comments"),  
     w('local t = { a -- c\n, -- d\n b }\n', oracle="comments"), w('foo(a -- c\n, -- d\n b)\n', oracle="comments"), w('return a -- c\n, -- d\n b\n', oracle="comments")]   # D28, one per formatter
 WITNESSES = {
     "C03.condition": COND_COMMENT_WITNESSES, "C02.condition": COND_COMMENT_WITNESSES,
-    "C02.stmt": COLLAPSE_WITNESSES, "C01.semicolon": COLLAPSE_WITNESSES[:2] + SEMI_COMMENT_WITNESSES, "C08.block": SEMI_COMMENT_WITNESSES,
+    "C02.stmt": COLLAPSE_WITNESSES, "C02.if_guard": COLLAPSE_WITNESSES, "C02.simple_block": COLLAPSE_WITNESSES, "C02.collapsed_function": COLLAPSE_WITNESSES, "C02.format_if": COLLAPSE_WITNESSES + COND_COMMENT_WITNESSES,
+    "C02.empty_block": COLLAPSE_WITNESSES, "C03.if_guard": COLLAPSE_WITNESSES, "C03.collapsed_function": COLLAPSE_WITNESSES, "C01.semicolon": COLLAPSE_WITNESSES[:2] + SEMI_COMMENT_WITNESSES, "C08.block": SEMI_COMMENT_WITNESSES,
     "C02.": TYPE_WITNESSES, "C03.": TABLE_COMMENT_WITNESSES, "C03.field_value": FIELD_COMMENT_WITNESSES, "C02.field_value": FIELD_COMMENT_WITNESSES,
     "C01.line_comment": C04_WITNESSES + C10_WITNESSES[:4], "C04.": C04_WITNESSES, "C03.token_text": C04_WITNESSES + C10_WITNESSES, "C11.quote_choice": C04_WITNESSES[:4], "C10.": C10_WITNESSES,
     "C11.": C11_WITNESSES, "C02.call_sugar": C11_WITNESSES[:5], "C03.args_conversion": [w('f( --[[c]] "x")\ng("y" --[[d]])\nh("z") -- e\nk( -- l\n{})\n', oracle="comments", call_parentheses="None")],
@@ -352,7 +356,11 @@ C03_BOUNDED = (TABLE_COMMENT_WITNESSES + COND_COMMENT_WITNESSES + SEMI_COMMENT_W
 def nest(n, open_, close): return "local v = " + "".join(open_ for _ in range(n)) + "1" + "".join(close for _ in range(n)) + "\n"
 TIME_WITNESSES = [dict(w(nest(24, "f({ ", " })"), oracle="parse"), time_limit=20), dict(w(nest(22, "f(", ")"), oracle="parse"), time_limit=20),
                   dict(w(nest(40, "{ ", " }"), oracle="parse"), time_limit=20), dict(w("local v = " + " + ".join(f"a{i}" for i in range(400)) + "\n", oracle="parse"), time_limit=20)]
-C07_BOUNDED = [x for x in COLLAPSE_WITNESSES if x["oracle"] == "tree"] + TIME_WITNESSES    # the replay tool reports a formatter panic as a violation
+def chain(n): return "local x = " + "".join("a:b(" for _ in range(n)) + "a" + "".join("):c()" for _ in range(n)) + "\n"
+# D37 (open, known finding): every level of a method chain nested in the arguments of a method chain is formatted several times over
+# (trial formats of format_function_call and of the argument heuristics): 150 bytes take minutes
+D37_FINDING = [dict(w(chain(16), oracle="parse"), time_limit=10)]
+C07_BOUNDED = [x for x in COLLAPSE_WITNESSES if x["oracle"] == "tree"] + TIME_WITNESSES + [dict(w(chain(7), oracle="parse"), time_limit=20)] + D37_FINDING    # the replay tool reports a formatter panic as a violation
 
 # corpus sweep (bounded stand-in): /repo/tests/inputs*/ under configurations and widths the snapshot tests do not use
 CORPUS_CONFIGS_QUICK = [dict(), dict(collapse_simple_statement="Always", call_parentheses="None"),
